@@ -55,7 +55,8 @@ type bpTag struct{ Kind string }
 
 func runBlockProc(run *ev.Run, c int) {
 	seed := fmt.Sprintf("bp-%d-%d", run.Seed, c)
-	chain := newAllChain(run, seed, nil, time.Time{})
+	chain := newAllChainAt(run, seed, nil, time.Time{}, boundaryHeight(c))
+	run.Class("initial-height", fmt.Sprint(boundaryHeight(c)))
 	r := chain.r
 	rng := run.Rng
 	blocks := tierN(run.Tier, 160, 450)
